@@ -174,6 +174,10 @@ Qed.
 
 Definition rel (i : nat) : env := EDeliver i DRelease.
 
+(* two established associations, each released and each silent past the read timeout, all interleavings *)
+Definition cfg4 : list acfg := [ACfg [1%N] false None; ACfg [2%N] false None].
+Definition ev4 : list env := [rel 0; ETimeout 0; rel 1; ETimeout 1].
+
 (* ================================================================== witnesses (refutations of the full statements) *)
 Definition one_live (k : list N) : list acfg := [ACfg k false None].
 
